@@ -73,6 +73,8 @@ def session_case_term(res):
         trees = res["inflight"]
         items.append("{| g_trees := [%s]; g_results := [%s]; g_out := \"\"; g_counters := [] |}" % (
             ";".join(trees), ";".join(["GValue VNil"] * (len(trees) - 1) + ["GHang"])))
+    if not items:
+        return "(@nil ginput)"
     return "[" + ";\n ".join(items) + "]"
 
 
